@@ -103,6 +103,8 @@ def parse_restores(self: Any, raw: bytes, result: bytes) -> bool:
     EVAL['parse'] += 1
     e = _expect
     if 'free' in e:
+        if _WEB.get('stop'):
+            return True
         # called from inside the product (the web server's frame loop): judged against the independent decoder, recorded
         # rather than raised so that the loop under observation is not cut short by the observer
         frames, _tail = ref_decode(raw, limit=1)
@@ -245,6 +247,8 @@ def _web_plugin() -> Any:
 
         def on_client_data(self, request: Any, raw: memoryview) -> Optional[memoryview]:
             _WEB['reads'].append([bytes(raw), []])
+            if ref_decode(bytes(raw))[1]:
+                _WEB['stop'] = True         # a read that does not end on a frame boundary: nothing is judged from here on
             return raw
 
         def on_websocket_message(self, frame: WebsocketFrame) -> None:
@@ -267,6 +271,7 @@ def run_web(case: Dict[str, Any]) -> Dict[str, Any]:
         _WEB['plugin'] = _web_plugin()
     flags = make_flags(['--enable-web-server'], plugins=[_WEB['plugin']], cache_key='c16web')
     _WEB['reads'] = []
+    _WEB['stop'] = False
     _expect.clear()
     _expect['free'] = []
     rig = StepRig(flags, 'local')
@@ -318,7 +323,7 @@ def run_web(case: Dict[str, Any]) -> Dict[str, Any]:
                                     {'read': ri, 'frames_in_read': len(frames), 'delivered': len(delivered), 'lens': [len(f[5]) for f in frames],
                                      'delivered_lens': [len(f[5]) for f in delivered], 'groups': case['groups']})
                     break
-            if c.ended and 'web|frames-delivered-to-route-differ-from-frames-in-read' not in ''.join(viol):
+            if c.ended and not _WEB['stop'] and 'web|frames-delivered-to-route-differ-from-frames-in-read' not in ''.join(viol):
                 viol.setdefault('web|connection-ended-on-well-formed-frames', {'groups': case['groups'], 'reads': len(_WEB['reads'])})
         if _expect['free']:
             viol.setdefault('web|parse-inside-frame-loop-differs-from-reference', {'first': _expect['free'][0], 'groups': case['groups']})
